@@ -478,6 +478,26 @@ Example C15_P_hub_roles :
                        (XDecode Private (SLit "x"%string) 0%N no_answers, WNoData)] = None.
 Proof. vm_compute. repeat split; reflexivity. Qed.
 
+(* the clause on hub and codec side by side (XBoth), on ids of both request paths: both answers are the data
+   the id was made with; the hub answering the data of ANOTHER session for the private id of a virtual session
+   while the codec answers the right one (a cache entry pre-filled with foreign data) fails at that step, and so
+   does a codec answer that is not the minted data, or an answer for the other role *)
+Example C15_P_hub_request_paths :
+  let reg := (XRegister (cd 1%N 1%N) "1"%string [] "1"%string [] no_answers, WIds "PRIV"%string "PUB"%string) in
+  let add := (XAddSession (cd 2%N 2%N) "1"%string [] "1"%string [] no_answers, WIds "VPRIV"%string "VPUB"%string) in
+  let both i r which hv cv := (XBoth r (SMut i which MId) 0%N no_answers, WBoth hv cv) in
+  let p := Some (cd 1%N 1%N) in let v := Some (cd 2%N 2%N) in
+  P_hub_go 0 [] [] [] [reg; add; both 0%nat Private Private p p; both 1%nat Private Private v v; both 1%nat Public Public v v;
+                       both 1%nat Public Private None None; (XRemove 2%N, WNone); both 1%nat Private Private v v;
+                       (XPrefill Private (SMut 1 Private MId) 0%N no_answers, WNone);
+                       (XInvalidate Public (SMut 1 Public MId) 0%N, WNone); both 1%nat Public Public v v] = None /\
+  P_hub_go 0 [] [] [] [reg; add; both 1%nat Private Private p v] = Some 2%nat /\
+  P_hub_go 0 [] [] [] [reg; add; both 1%nat Private Private p p] = Some 2%nat /\
+  P_hub_go 0 [] [] [] [reg; add; both 1%nat Private Private None v] = Some 2%nat /\
+  P_hub_go 0 [] [] [] [reg; add; both 1%nat Private Private v None] = Some 2%nat /\
+  P_hub_go 0 [] [] [] [reg; add; both 1%nat Private Public v v] = Some 2%nat.
+Proof. vm_compute. repeat split; reflexivity. Qed.
+
 (* ---- the key sets of the cases of mode 3 (corr/Run_C15.v) are the model's reading of the configurations ---- *)
 From Coq Require Import Lia.
 
